@@ -119,6 +119,7 @@ type checkCtx struct {
 	seed                      int
 	goBin                     string
 	raceRun                   bool
+	watchdog                  bool
 	outBase                   string
 }
 
@@ -339,6 +340,23 @@ func cmdCheck(args []string) int {
 			c.raceRun = false
 		}
 	}
+	// paths that hit the unwinding bound: replayed one by one under a watchdog
+	if pp.Native != "none" && pp.Native != "synctest" {
+		n := 0
+		for id, v := range violByID {
+			if v.Kind != "nontermination" || n >= 3 {
+				continue
+			}
+			n++
+			c.watchdog = true
+			if r2, err2 := c.runNative(prog, specs, []nativeCase{{Pkg: v.Pkg, ID: id, Harness: v.Harness, Params: v.Params, Inputs: v.Model}}, pkgOf, pp.Native); err2 == nil {
+				for id2, r := range r2 {
+					results[id2] = r
+				}
+			}
+			c.watchdog = false
+		}
+	}
 	for id, s := range byID {
 		r := results[id]
 		if r == nil || !r.Seen {
@@ -410,6 +428,9 @@ func cmdCheck(args []string) int {
 			case v.Kind == "deadlock":
 				confirmed = r.Panic != "" || contains(r.Fails, "deadlock")
 				why = "native run did not deadlock"
+			case v.Kind == "nontermination":
+				confirmed = contains(r.Fails, "terminates")
+				why = "native run ended within the watchdog's 20 s: the unwinding bound is too small for this path, not a termination failure"
 			default:
 				confirmed = contains(r.Fails, v.Label)
 				why = fmt.Sprintf("native run did not fail label %q (fails=%v panic=%q)", v.Label, r.Fails, r.Panic)
@@ -641,7 +662,7 @@ func (c *checkCtx) runNative(prog *Program, specs []*HarnessSpec, cases []native
 		sp := prog.pkgs[p]
 		rel := strings.TrimPrefix(strings.TrimPrefix(p, modPath), "/")
 		var sb strings.Builder
-		sb.WriteString("//go:build verif\n\npackage " + sp.Pkg.Name() + "\n\nimport (\n\t\"encoding/json\"\n\t\"fmt\"\n\t\"os\"\n\t\"testing\"\n")
+		sb.WriteString("//go:build verif\n\npackage " + sp.Pkg.Name() + "\n\nimport (\n\t\"encoding/json\"\n\t\"fmt\"\n\t\"os\"\n\t\"testing\"\n\t\"time\"\n")
 		if mode == "synctest" {
 			sb.WriteString("\t\"runtime\"\n\t\"testing/synctest\"\n")
 		}
@@ -680,6 +701,30 @@ func (c *checkCtx) runNative(prog *Program, specs []*HarnessSpec, cases []native
 	}
 	for _, c := range cases {
 		fmt.Printf("VERIF-CASE %s\n", c.ID)
+		if os.Getenv("VERIF_WATCHDOG") != "" {
+			// termination check: the case runs beside a watchdog; a run that has not ended when
+			// it expires is reported and the test binary exits
+			done := make(chan struct{})
+			c := c
+			go func() {
+				defer close(done)
+				defer func() {
+					if r := recover(); r != nil {
+						fmt.Printf("VERIF-PANIC %v\n", r)
+					}
+				}()
+				verifLoadCase(verifCase{Inputs: c.Inputs}, os.Stdout)
+				verifDispatch(c.Harness, c.Params)
+			}()
+			select {
+			case <-done:
+			case <-time.After(20 * time.Second):
+				fmt.Printf("VERIF-FAIL terminates\nVERIF-ENDCASE\n")
+				os.Exit(0)
+			}
+			fmt.Printf("VERIF-ENDCASE\n")
+			continue
+		}
 		verifWrap(t, func() {
 			defer func() {
 				if r := recover(); r != nil {
@@ -723,6 +768,9 @@ func (c *checkCtx) runNative(prog *Program, specs []*HarnessSpec, cases []native
 		}
 		if c.raceRun {
 			args = append(args[:2], append([]string{"-race"}, args[2:]...)...)
+		}
+		if c.watchdog {
+			env = append(env, "VERIF_WATCHDOG=20")
 		}
 		cmd := exec.Command(goBin, args...)
 		cmd.Dir = c.repo
@@ -833,6 +881,7 @@ func cmdReplay(args []string) int {
 			mode = pp.Native
 		}
 	}
+	c.watchdog = cex.Kind == "nontermination"
 	res, err := c.runNative(prog, []*HarnessSpec{spec}, []nativeCase{{Pkg: cex.Pkg, ID: "cex", Harness: cex.Harness, Params: cex.Params, Inputs: cex.Inputs}}, map[string]string{cex.Harness: cex.Pkg}, mode)
 	if err != nil {
 		fmt.Fprintln(os.Stderr, err)
